@@ -598,6 +598,35 @@ func hasDotStarPrefix(re *syntax.Regexp) bool {
 		(first.Sub[0].Op == syntax.OpAnyChar || first.Sub[0].Op == syntax.OpAnyCharNotNL)
 }
 
+// isDotStarLiteral reports whether the pattern is exactly  .*literal  with a
+// greedy `.` that stops at newlines and a short, case-sensitive literal without
+// a newline. Only for this shape is "from the start of the line to the last
+// suffix on it" the match, which is what the reverse-suffix searcher's
+// matchStartZero shortcut returns without looking at anything else.
+func isDotStarLiteral(re *syntax.Regexp) bool {
+	for re.Op == syntax.OpCapture && len(re.Sub) > 0 {
+		re = re.Sub[0]
+	}
+	if re.Op != syntax.OpConcat || len(re.Sub) != 2 {
+		return false
+	}
+	first := re.Sub[0]
+	if first.Op != syntax.OpStar || first.Flags&syntax.NonGreedy != 0 ||
+		len(first.Sub) != 1 || first.Sub[0].Op != syntax.OpAnyCharNotNL {
+		return false
+	}
+	lit := re.Sub[1]
+	if lit.Op != syntax.OpLiteral || lit.Flags&syntax.FoldCase != 0 || len(lit.Rune) == 0 || len(lit.Rune) > 16 {
+		return false
+	}
+	for _, r := range lit.Rune {
+		if r == '\n' {
+			return false
+		}
+	}
+	return true
+}
+
 // isWildcardSubexpression checks if a subexpression acts as a "wildcard" that can
 // consume variable-length input. Used by isSafeForReverseSuffix to identify patterns
 // suitable for reverse suffix search.
